@@ -281,6 +281,67 @@ func judge(c *fw.Ctx, cache map[string]*loaded, cs *Case) {
 				fmt.Sprintf("matcher %s with config %s: %s on a fresh connection from %s, %s on a connection that reports the same addresses but wraps one (from 203.0.113.99 / 2001:db8:99::99) which the matcher had evaluated before", cs.Matcher, cs.Config, v, cs.Remote, v3), cs)
 		}
 	}
+	// reload law (a sample of the cases): the same configuration is provisioned a second time while the first instance
+	// exists, then the first one is released (what a configuration reload does). The second instance answers like a fresh
+	// one; the retired first instance, which may still be asked about connections accepted before the reload, does not
+	// start to match what it rejected.
+	if v != "panic" && fw.Hash("reload", key, cs.InputHex)%8 == 0 {
+		var vOld, vNew mt.Verdict = v, v
+		func() {
+			defer func() { _ = recover() }()
+			a, err := mt.Load(cs.Matcher, cs.Config)
+			if err != nil {
+				return
+			}
+			b, err := mt.Load(cs.Matcher, cs.Config)
+			if err != nil {
+				a.Close()
+				return
+			}
+			a.Close()
+			vNew, _ = b.Eval(cs.Input, cs.opts())
+			vOld, _ = a.Eval(cs.Input, cs.opts())
+			b.Close()
+		}()
+		c.Obs("reload_evaluations", 1)
+		if vNew != v {
+			c.Violation(fmt.Sprintf("C14 %s: verdict changes when the configuration is provisioned again and the earlier instance released", cs.Matcher),
+				fmt.Sprintf("matcher %s with config %s on input %s: %s from a fresh instance, %s from an instance provisioned while an earlier one with the same configuration existed, after that one was cleaned up", cs.Matcher, cs.Config, trimHex(cs.InputHex), v, vNew), cs)
+		}
+		if vOld == mt.Yes && v != mt.Yes {
+			c.Violation(fmt.Sprintf("C14 %s: a released instance matches what it rejected", cs.Matcher),
+				fmt.Sprintf("matcher %s with config %s on input %s: %s while loaded, %s after its configuration was unloaded (connections accepted before still reach it)", cs.Matcher, cs.Config, trimHex(cs.InputHex), v, vOld), cs)
+		}
+	}
+	// rotation law for the address matchers: the range is given as an environment placeholder; an instance provisioned
+	// when the variable had another value exists; the variable changes and the same configuration text is provisioned
+	// again: the new instance works with the new value.
+	if (cs.Matcher == "remote_ip" || cs.Matcher == "local_ip") && v != "panic" && cs.Env == nil && fw.Hash("rotate", key, cs.InputHex)%4 == 0 {
+		if cfg2, env := placeholderiseFixed(cs.Matcher, cs.Config, "VERIF_C14_ROTATING"); env != "" {
+			var vNew mt.Verdict = v
+			func() {
+				defer func() { _ = recover() }()
+				_ = os.Setenv("VERIF_C14_ROTATING", "203.0.113.77/32")
+				a, err := mt.Load(cs.Matcher, cfg2)
+				if err != nil {
+					return
+				}
+				_ = os.Setenv("VERIF_C14_ROTATING", env)
+				b, err := mt.Load(cs.Matcher, cfg2)
+				a.Close()
+				if err != nil {
+					return
+				}
+				vNew, _ = b.Eval(cs.Input, cs.opts())
+				b.Close()
+			}()
+			c.Obs("rotation_evaluations", 1)
+			if vNew != v {
+				c.Violation(fmt.Sprintf("C14 %s: a range given as {env.NAME} keeps an earlier value of the variable after the configuration was provisioned again", cs.Matcher),
+					fmt.Sprintf("matcher %s with config %s (first range through {env.VERIF_C14_ROTATING}, which was 203.0.113.77/32 when an earlier instance was provisioned and is %s now): %s with the literal, %s through the placeholder", cs.Matcher, cs.Config, env, v, vNew), cs)
+			}
+		}
+	}
 	prevLoaded[cs.Matcher] = l
 	ok := (cs.Want && v == mt.Yes) || (!cs.Want && (v == mt.No || v == mt.Err || v == mt.More))
 	if v == "panic" {
